@@ -29,6 +29,7 @@ async fn judged_send(
     peers: &[Peer],
     msg: &Frames,
     backpressure: Option<(usize, usize)>, // (peer whose credit is limited, credit)
+    dead: &[bool],
     case: &Value,
 ) -> Result<Option<usize>, ()> {
     let ty = sock.ty();
@@ -116,6 +117,22 @@ async fn judged_send(
             Ok(Some(who[0]))
         }
         Err(e) => {
+            if dead.iter().any(|d| *d) {
+                // a connection ended: how often a send may fail because of it is C16's
+                // business; the message handed back must still be the message
+                ctx.count("send_errors_after_a_peer_died");
+                if let Some(back) = &e.returned {
+                    if back != msg {
+                        ctx.violation_with(
+                            &format!("C10/returned-message-altered/{ty}"),
+                            format!("send failed ({}); handed back {} instead of {}", e.text, rc::frames_summary(back), rc::frames_summary(msg)),
+                            case.clone(),
+                        );
+                        return Err(());
+                    }
+                }
+                return Ok(None);
+            }
             if peers.is_empty() {
                 ctx.count("zero_peer_sends");
                 if e.returned.as_ref() != Some(msg) {
@@ -160,7 +177,7 @@ async fn run(ctx: &mut Ctx, ty: &str, npeers: usize, seed: u64, case: &Value) {
         for sh in shapes {
             let msg = rc::tagged(1, seq, sh);
             seq += 1;
-            if judged_send(ctx, &mut sock, &peers, &msg, None, case).await.is_err() {
+            if judged_send(ctx, &mut sock, &peers, &msg, None, &[], case).await.is_err() {
                 return;
             }
         }
@@ -174,6 +191,10 @@ async fn run(ctx: &mut Ctx, ty: &str, npeers: usize, seed: u64, case: &Value) {
     let mut join_times: Vec<usize> = (0..npeers).map(|k| if k == 0 { 0 } else { r.below(total_sends / 2) }).collect();
     join_times.sort();
     let mut next_join = 0;
+    // one peer's connection ends at a seeded moment (REQ: while it owes a reply, so its
+    // id is still queued in the rotation)
+    let mut dead: Vec<bool> = Vec::new();
+    let die_at = if npeers >= 2 && r.chance(1, 2) { Some(total_sends / 2 + r.below(total_sends / 3)) } else { None };
     for k in 0..total_sends {
         while next_join < npeers && join_times[next_join] <= k {
             match Peer::attach(&sock, peer_type_for(ty), Some(format!("p{next_join}").as_bytes())).await {
@@ -183,6 +204,7 @@ async fn run(ctx: &mut Ctx, ty: &str, npeers: usize, seed: u64, case: &Value) {
                         p.conn.set_max_write(r.range(1, 700));
                     }
                     peers.push(p);
+                    dead.push(false);
                     joined_at.push(history.len());
                     set_changed_at = history.len();
                     if !history.is_empty() {
@@ -209,14 +231,43 @@ async fn run(ctx: &mut Ctx, ty: &str, npeers: usize, seed: u64, case: &Value) {
         } else {
             None
         };
-        let who = match judged_send(ctx, &mut sock, &peers, &msg, bp, case).await {
+        if die_at == Some(k) && ty != "REQ" && peers.len() >= 2 && !dead.iter().any(|d| *d) {
+            let v = r.below(peers.len());
+            peers[v].conn.close_full(crate::pipe::EndKind::Eof);
+            dead[v] = true;
+            ctx.count("peers_died_mid_run");
+            set_changed_at = usize::MAX; // rotation is judged again once the survivors are known
+        }
+        let who = match judged_send(ctx, &mut sock, &peers, &msg, bp, &dead, case).await {
             Ok(w) => w,
             Err(()) => return,
         };
         for p in &peers {
             p.conn.set_credit(None);
         }
+        if ty == "REQ" && die_at.map(|d| k >= d).unwrap_or(false) && !dead.iter().any(|d| *d) && peers.len() >= 2 {
+            if let Some(w) = who {
+                // the server that just got the request dies before answering
+                peers[w].conn.close_full(crate::pipe::EndKind::Eof);
+                dead[w] = true;
+                ctx.count("peers_died_mid_run");
+                let _ = recv_now(&mut sock).await;
+                set_changed_at = usize::MAX;
+                continue;
+            }
+        }
         answer_if_req(&mut sock, &peers, who).await;
+        if dead.iter().any(|d| *d) {
+            // after a death only "exactly one live peer, exact bytes" is judged here
+            // (done inside judged_send); rotation over the survivors:
+            if let Some(w) = who {
+                if dead[w] {
+                    ctx.violation_with(&format!("C10/sent-to-dead-peer/{ty}"), format!("send returned Ok and wrote to the closed connection {w}"), case.clone());
+                    return;
+                }
+            }
+            continue;
+        }
         if let Some(w) = who {
             history.push(w);
             trace = mix(trace ^ w as u64);
